@@ -119,6 +119,10 @@ func cmpFiles(what string, a, b []*chart.File, at string, st *cmpStats, out *[]d
 		x, okx := am[n]
 		y, oky := bm[n]
 		switch {
+		case (!oky || !okx) && strings.HasPrefix(n, "charts/") && strings.HasSuffix(n, ".prov"):
+			// cause shape: the loader files every charts/**.prov under the TOP chart, so a .prov that
+			// belonged to a nested dependency changes owner once the tree is flattened into one archive
+			*out = append(*out, diff{what + " re-homed: .prov file below charts/ of a nested dependency", fmt.Sprintf("%s%q present before %v, after %v", at, n, okx, oky)})
 		case !oky:
 			*out = append(*out, diff{what + " missing [" + nameShape(n) + "]", fmt.Sprintf("%s%q (%d bytes) is missing", at, n, len(x))})
 		case !okx:
